@@ -18,7 +18,7 @@
 //!   sfs <type> <value>      Serialize, then Deserialize            (type: bignum int bigint hash28 hash32 assetname)
 //!   ty <Type> <cbor hex>    typed value x = from_bytes: y = from_json(to_json(x)); `ok eq=(x==y) bytes=(same to_bytes) norm=(same CBOR up to
 //!                           map-entry order) fix=(y round-trips exactly) lang=(x holds a Plutus V2/V3 script) negint=(x holds a metadatum
-//!                           integer below -2^63)` | `err-tojson ..` | `err-fromjson ..` | `skip ..` (observation stream, no model)
+//!                           integer below -2^63) unsorted=(some insertion-ordered map of x that JSON writes sorted is not ascending)` | `err-tojson ..` | `err-fromjson ..` | `skip ..` (observation stream, no model)
 //! Observation: `<first leg> ; <second leg>` with a leg = `ok <tokens>` | `err` | `panic`; the second leg is
 //! absent when the first did not succeed; `m2j`/`p2j`/`sfs` append `eq=<0|1>` (Rust `==` and equal to_bytes
 //! between the original and the value that came back).
@@ -339,53 +339,68 @@ fn exec_sfs(ty: &str, v: &str) -> String {
 
 // ------------------------------------------------------------------------------------------------
 // typed values: from_bytes -> to_json -> from_json
-/// Order-insensitive normal form of a CBOR item: every map has its entries sorted by the normalised key bytes;
-/// everything else (head widths, definite/indefinite framing, tags, array order) is kept.
+/// Canonical form of a CBOR item for a content comparison that ignores encoding choices and map-entry order:
+/// minimal heads, definite lengths (chunked strings concatenated), map entries sorted by their canonical bytes;
+/// tags, array order and all values are kept.
+fn cbor_head(major: u8, n: u64, o: &mut Vec<u8>) {
+    let m = major << 5;
+    if n < 24 { o.push(m | n as u8) } else if n < 256 { o.push(m | 24); o.push(n as u8) }
+    else if n < 65536 { o.push(m | 25); o.extend_from_slice(&(n as u16).to_be_bytes()) }
+    else if n < (1u64 << 32) { o.push(m | 26); o.extend_from_slice(&(n as u32).to_be_bytes()) }
+    else { o.push(m | 27); o.extend_from_slice(&n.to_be_bytes()) }
+}
 fn cbor_norm(b: &[u8], p: &mut usize, o: &mut Vec<u8>) -> Option<()> {
     let ib = *b.get(*p)?; *p += 1;
     let major = ib >> 5; let ai = ib & 31;
-    let mut head = vec![ib];
     let arg: Option<u64> = match ai {
         0..=23 => Some(ai as u64),
-        24 => { head.push(*b.get(*p)?); *p += 1; Some(head[1] as u64) }
-        25 | 26 | 27 => { let n = 1usize << (ai - 24); let s = b.get(*p..*p + n)?; head.extend_from_slice(s); *p += n;
-                          Some(s.iter().fold(0u64, |a, x| (a << 8) | *x as u64)) }
+        24 => { let v = *b.get(*p)? as u64; *p += 1; Some(v) }
+        25 | 26 | 27 => { let n = 1usize << (ai - 24); let s = b.get(*p..*p + n)?; *p += n; Some(s.iter().fold(0u64, |a, x| (a << 8) | *x as u64)) }
         31 => None,
         _ => return None,
     };
     match major {
-        0 | 1 | 7 => { if arg.is_none() && major != 7 { return None; } o.extend_from_slice(&head); Some(()) }
-        2 | 3 => {
-            o.extend_from_slice(&head);
-            match arg {
-                Some(n) => { let s = b.get(*p..*p + n as usize)?; o.extend_from_slice(s); *p += n as usize; }
-                None => { loop { if *b.get(*p)? == 0xff { o.push(0xff); *p += 1; break; } cbor_norm(b, p, o)?; } }
-            }
+        0 | 1 => { cbor_head(major, arg?, o); Some(()) }
+        7 => { // simple values and floats: kept verbatim
+            o.push(ib);
+            match ai { 24 => o.push(arg? as u8), 25 => o.extend_from_slice(&(arg? as u16).to_be_bytes()), 26 => o.extend_from_slice(&(arg? as u32).to_be_bytes()),
+                       27 => o.extend_from_slice(&arg?.to_be_bytes()), _ => {} }
             Some(())
+        }
+        2 | 3 => {
+            let mut data: Vec<u8> = Vec::new();
+            match arg {
+                Some(n) => { let s = b.get(*p..(*p).checked_add(n as usize)?)?; data.extend_from_slice(s); *p += n as usize; }
+                None => { loop { let c = *b.get(*p)?; if c == 0xff { *p += 1; break; }
+                                 if c >> 5 != major { return None; }
+                                 let mut chunk = Vec::new(); cbor_norm(b, p, &mut chunk)?;
+                                 // strip the chunk's own (canonical) head
+                                 let mut q = 0usize; let hb = chunk[0] & 31; q += 1 + match hb { 24 => 1, 25 => 2, 26 => 4, 27 => 8, _ => 0 };
+                                 data.extend_from_slice(&chunk[q..]); } }
+            }
+            cbor_head(major, data.len() as u64, o); o.extend_from_slice(&data); Some(())
         }
         4 => {
-            o.extend_from_slice(&head);
+            let mut items: Vec<Vec<u8>> = Vec::new();
             match arg {
-                Some(n) => { for _ in 0..n { cbor_norm(b, p, o)?; } }
-                None => { loop { if *b.get(*p)? == 0xff { o.push(0xff); *p += 1; break; } cbor_norm(b, p, o)?; } }
+                Some(n) => { for _ in 0..n { let mut x = Vec::new(); cbor_norm(b, p, &mut x)?; items.push(x); } }
+                None => { loop { if *b.get(*p)? == 0xff { *p += 1; break; } let mut x = Vec::new(); cbor_norm(b, p, &mut x)?; items.push(x); } }
             }
-            Some(())
+            cbor_head(4, items.len() as u64, o); for x in items { o.extend_from_slice(&x); } Some(())
         }
         5 => {
-            o.extend_from_slice(&head);
             let mut entries: Vec<(Vec<u8>, Vec<u8>)> = Vec::new();
             let mut one = |p: &mut usize| -> Option<()> { let mut k = Vec::new(); cbor_norm(b, p, &mut k)?; let mut v = Vec::new(); cbor_norm(b, p, &mut v)?; entries.push((k, v)); Some(()) };
-            let indef = arg.is_none();
             match arg {
                 Some(n) => { for _ in 0..n { one(p)?; } }
                 None => { loop { if *b.get(*p)? == 0xff { *p += 1; break; } one(p)?; } }
             }
             entries.sort();
+            cbor_head(5, entries.len() as u64, o);
             for (k, v) in entries { o.extend_from_slice(&k); o.extend_from_slice(&v); }
-            if indef { o.push(0xff); }
             Some(())
         }
-        6 => { o.extend_from_slice(&head); cbor_norm(b, p, o) }
+        6 => { cbor_head(6, arg?, o); cbor_norm(b, p, o) }
         _ => None,
     }
 }
@@ -405,6 +420,35 @@ fn m_negint(m: &M) -> bool {
 }
 fn gm_neg(g: &GeneralTransactionMetadata) -> bool { let ks = g.keys(); (0..ks.len()).any(|i| m_negint(&m_read(&g.get(&ks.get(i)).unwrap()))) }
 fn aux_neg(a: &AuxiliaryData) -> bool { a.metadata().map(|g| gm_neg(&g)).unwrap_or(false) }
+// insertion-ordered maps that the JSON form writes through a BTreeMap: is some of them NOT in ascending key order?
+fn wd_unsorted(w: &Withdrawals) -> bool { let k = w.keys(); (1..k.len()).any(|i| !(k.get(i - 1) < k.get(i))) }
+fn pp_unsorted(u: &ProposedProtocolParameterUpdates) -> bool { let k = u.keys(); (1..k.len()).any(|i| !(k.get(i - 1) < k.get(i))) }
+fn gm_unsorted(g: &GeneralTransactionMetadata) -> bool { let k = g.keys(); (1..k.len()).any(|i| !(k.get(i - 1) < k.get(i))) }
+fn aux_unsorted(a: &AuxiliaryData) -> bool { a.metadata().map(|g| gm_unsorted(&g)).unwrap_or(false) }
+fn upd_unsorted(u: &Update) -> bool { pp_unsorted(&u.proposed_protocol_parameter_updates()) }
+fn body_unsorted(b: &TransactionBody) -> bool {
+    b.withdrawals().map(|w| wd_unsorted(&w)).unwrap_or(false) || b.update().map(|u| upd_unsorted(&u)).unwrap_or(false)
+}
+fn probe_ord(name: &str, bytes: &[u8]) -> bool {
+    let b = bytes.to_vec();
+    match name {
+        "Withdrawals" => Withdrawals::from_bytes(b).map(|x| wd_unsorted(&x)).unwrap_or(false),
+        "ProposedProtocolParameterUpdates" => ProposedProtocolParameterUpdates::from_bytes(b).map(|x| pp_unsorted(&x)).unwrap_or(false),
+        "Update" => Update::from_bytes(b).map(|x| upd_unsorted(&x)).unwrap_or(false),
+        "GeneralTransactionMetadata" => GeneralTransactionMetadata::from_bytes(b).map(|x| gm_unsorted(&x)).unwrap_or(false),
+        "AuxiliaryData" => AuxiliaryData::from_bytes(b).map(|x| aux_unsorted(&x)).unwrap_or(false),
+        "TransactionBody" => TransactionBody::from_bytes(b).map(|x| body_unsorted(&x)).unwrap_or(false),
+        "Transaction" => Transaction::from_bytes(b).map(|x| body_unsorted(&x.body()) || x.auxiliary_data().map(|a| aux_unsorted(&a)).unwrap_or(false)).unwrap_or(false),
+        "Block" => match Block::from_bytes(b) {
+            Ok(x) => {
+                let bs = x.transaction_bodies(); let ad = x.auxiliary_data_set(); let ix = ad.indices();
+                let idx: Vec<u32> = (0..ix.len()).filter_map(|i| ix.get(i).copied()).collect();
+                (0..bs.len()).any(|i| body_unsorted(&bs.get(i))) || idx.windows(2).any(|w| !(w[0] < w[1]))
+                    || idx.iter().any(|k| ad.get(*k).map(|a| aux_unsorted(&a)).unwrap_or(false)) }
+            Err(_) => false },
+        _ => false,
+    }
+}
 /// (some Plutus script of language V2/V3 inside, some metadatum integer below -2^63 inside)
 fn probe(name: &str, bytes: &[u8]) -> (bool, bool) {
     let b = bytes.to_vec();
@@ -446,7 +490,8 @@ macro_rules! ty_arm {
                         let eq = y == x; let bytes = xb == yb;
                         let norm = match (cbor_normal(&xb), cbor_normal(&yb)) { (Some(a), Some(b)) => a == b, _ => false };
                         // the value that came back has its maps filled in ascending key order: it must round-trip exactly
-                        let fix = match y.to_json() { Ok(s2) => match <$t>::from_json(&s2) { Ok(z) => z == y && z.to_bytes() == yb && s2 == s, Err(_) => false }, Err(_) => false };
+                        let fix = match y.to_json() { Ok(s2) => match <$t>::from_json(&s2) {
+                            Ok(z) => z == y && z.to_bytes() == yb && z.to_json().map(|s3| s3 == s2).unwrap_or(false), Err(_) => false }, Err(_) => false };
                         format!("ok eq={} bytes={} norm={} fix={}", eq as u8, bytes as u8, norm as u8, fix as u8)
                     }
                 },
@@ -476,8 +521,9 @@ macro_rules! ty_dispatch {
 }
 fn exec_ty(name: &str, bytes: Vec<u8>) -> String {
     let (lang, neg) = probe(name, &bytes);
+    let unsorted = probe_ord(name, &bytes);
     let r = exec_ty0(name, bytes);
-    if r.starts_with("skip") { r } else { format!("{} lang={} negint={}", r, lang as u8, neg as u8) }
+    if r.starts_with("skip") { r } else { format!("{} lang={} negint={} unsorted={}", r, lang as u8, neg as u8, unsorted as u8) }
 }
 fn exec_ty0(name: &str, bytes: Vec<u8>) -> String {
     ty_dispatch!(name, bytes;
